@@ -73,6 +73,22 @@ theorem decor_invariant (style : Style) (d : Decor) (hd : d.ok) (f : Forest) (ha
 theorem decor_invariant_holds : decor_invariant_statement :=
   fun style d f hd ha => decor_invariant style d hd f ha
 
+/-! ### known finding `dot-in-name`: outside `admissible`, inside the name flags -/
+
+/-- **Counterexample** (known finding `c_ne_s:node:dot-in-name`): a name that contains the path
+    separator `.` passes the name check with all flags set, but the text `a.b=1` is refused
+    (`mpt_path_add` rejects the element), so this forest is not read back. -/
+theorem roundtrip_dot_counterexample :
+    ncheck (str "a.b") 0xff = none
+    ∧ parseTree .brace (render .brace noDecor [.node (str "a.b") (some (str "1")) []]) = none := by
+  decide +kernel
+
+/-- `roundtrip` excludes exactly that region through `admissible`: an admissible name never contains
+    the separator -/
+theorem admissible_name_no_dot (n : List UInt8) (h : nameOk n = true) : n.contains 46 = false := by
+  simp only [nameOk, Bool.and_eq_true] at h
+  exact nameOk_nosep n h.1.2
+
 /-! ### non-vacuity -/
 section examples
 /-- a forest with nesting, duplicate names, an empty section, an empty value, a value that needs quotes
